@@ -67,6 +67,7 @@ FIRST = {
     'd01-C04': 'caught (M4); M8 raised a false alarm on it (counts written through an aggregate initialiser) - corrected, neutral edit cxx-compose-node-built-in-place added',
     'd07-C15': 'caught', 'd09-C17': 'caught',
     'd06-C14': 'caught',
+    'e03-C03': 'caught', 'e06-C06': 'caught', 'e10-C10': 'caught', 'e18-C18': 'caught',
     'c03-C03': 'missed by C03 (D2 reported it under C02 / C13) -> D2 now also decides C03',
     'c02-C02': 'missed by C02 (T3 reported it under C17 / C18) -> T1, T3, T3b now also decide C02',
     'c01-C01': 'missed by C01 (the same change as b10, written independently; DC1 reported it under C19) -> DC1 and DC4 now also decide C01',
